@@ -114,7 +114,17 @@ func main() {
 		S, err := loadSpecs()
 		must(err)
 		bad := 0
-		for _, k := range fs.Args() {
+		keys := fs.Args()
+		if len(keys) == 1 && keys[0] == "all" {
+			keys = nil
+			for k, c := range S.Contracts {
+				if !c.Trusted && !c.Unverified {
+					keys = append(keys, k)
+				}
+			}
+			sort.Strings(keys)
+		}
+		for _, k := range keys {
 			r := VerifyFunction(P, S, k)
 			if r.Err != "" {
 				fmt.Printf("%s: ENGINE ERROR: %s\n", k, r.Err)
